@@ -1003,8 +1003,9 @@ class Frame:
                 if isinstance(s, Cont):
                     ks |= s.kinds
             return Cont(True, inner, why=self.site(e),
-                        kind="set" if last == "set" else "dict", cname=cn,
-                        kinds=ks)
+                        kind="set" if last == "set" else (
+                            "list" if last in ("list", "deque") else "dict"),
+                        cname=cn, kinds=ks)
         if last in ("MappingProxyType",) and args:
             return args[0]
         if last in ("tuple", "frozenset", "sorted", "reversed", "iter") and args:
